@@ -118,7 +118,7 @@ inductive Re
   | cat (a b : Re)
   | alt (a b : Re)
   | opt (a : Re)                          -- `(...)?`
-  deriving Repr
+  deriving Repr, DecidableEq
 
 def clsHit (neg : Bool) (rs : List (Char × Char)) (c : Char) : Bool := inRanges rs c != neg
 
@@ -139,8 +139,21 @@ def rmatch : Re → (List Char → Bool) → List Char → Bool
   | .alt a b, k, s => rmatch a k s || rmatch b k s
   | .opt a, k, s => rmatch a k s || k s
 
-/-- `regexp.MatchString` for a pattern of the form `^r$`. -/
-def reFull (r : Re) (s : List Char) : Bool := rmatch r (·.isEmpty) s
+/-- `k` holds on some suffix of `s` (an unanchored match may start anywhere). -/
+def anySuffix (k : List Char → Bool) : List Char → Bool
+  | [] => k []
+  | c :: s => k (c :: s) || anySuffix k s
+
+/-- `regexp.MatchString` (unanchored search) for `^a1|a2|...|an$`: `^` binds to the first top-level alternative
+    only and `$` to the last one only. -/
+def reSearch : List Re → Bool → List Char → Bool
+  | [], _, _ => false
+  | [r], first, s => if first then rmatch r (·.isEmpty) s else anySuffix (rmatch r (·.isEmpty)) s
+  | r :: r' :: rest, first, s =>
+    (if first then rmatch r (fun _ => true) s else anySuffix (rmatch r (fun _ => true)) s) ||
+    reSearch (r' :: rest) false s
+
+def reFull (alts : List Re) (s : List Char) : Bool := reSearch alts true s
 
 /-- Regexp class body: like `parseClassBody` but also accepts the one non-alphanumeric class the translation itself
     produces, `[^/]`. -/
@@ -198,21 +211,26 @@ def parseAtom : Nat → List Char → Option (Re × List Char)
        | _ => some (.dot, s))
     else if c = '\\' then
       (match s with
-       | d :: rest => if d = '+' || d = '.' then some (.chr d, rest) else none
+       | d :: rest => if isAlnum d || d.toNat ≥ 128 then none else some (.chr d, rest)   -- escaped punctuation is literal
        | [] => none)
     else if c = '*' || c = '?' || c = '+' || c = ']' || c = '{' || c = '}' || c = '^' || c = '$' then none
     else some (.chr c, s)
 end
 
+/-- The alternatives of a top-level `a|b|c`. -/
+def Re.topAlts : Re → List Re
+  | .alt a b => a :: b.topAlts
+  | r => [r]
+
 /-- Compile `^...$`; `none` = `regexp.Compile` fails (unbalanced parentheses) or the string leaves the fragment. -/
-def compileRe (s : List Char) : Option Re :=
+def compileRe (s : List Char) : Option (List Re) :=
   match s with
   | '^' :: body =>
     match body.reverse with
     | '$' :: rb =>
       let b := rb.reverse
       match parseAlt (b.length * 3 + 6) b with
-      | some (r, []) => some r
+      | some (r, []) => some r.topAlts
       | _ => none
     | _ => none
   | _ => none
@@ -232,7 +250,7 @@ def toRegexString (F : Facts) (pattern : Name) : Name :=
 
 inductive Matcher
   | builtin (p : List GItem)
-  | regex (r : Re)
+  | regex (alts : List Re)
 
 /-- `patternToMatcher(root, pattern)`; `root = []` is Go's `""`.  `none`: compile error (the Go code returns an error,
     `Glob` panics). -/
@@ -297,6 +315,7 @@ def isBasePathOf (path b : Name) : Bool :=
 def shouldExclude (F : Facts) (rootName m : Name) : List Name → Option Bool
   | [] => some false
   | excl :: rest =>
+    if excl.isEmpty then none else            -- mustBeValidGlobString panics
     let joined := if rootName == ['.'] then excl else rootName ++ '/' :: excl
     if isBasePathOf m joined then some true else
     let rel := m.contains '/' && !excl.contains '/'
@@ -329,6 +348,7 @@ def globAll (F : Facts) (cfg : Cfg) (root : List Name) (t : Tree) (includes excl
   let rootName := nameOf root
   let w := walkDir F cfg root t
   includes.foldr (fun incl acc =>
+    if incl.isEmpty then none else            -- mustBeValidGlobString panics
     match globOne F rootName w incl excludes hidden symlinks, acc with
     | some l, some rest => some (l.map (trimRoot rootName) ++ rest)
     | _, _ => none) (some [])
@@ -370,18 +390,98 @@ def dstarSkip (k : List Name → Bool) : List Name → Bool
 /-- A pattern (list of segments) against a path (list of components).  `**` stands for zero or more complete
     components; as the last segment it stands for one or more (it selects what is below, not the directory itself). -/
 def segMatch : List Seg → List Name → Bool
-  | [] => fun cs => cs.isEmpty
-  | [.dstar] => fun cs => !cs.isEmpty
-  | .dstar :: rest => fun cs => dstarSkip (segMatch rest) cs
-  | .items p :: rest => fun cs => match cs with | c :: cs' => compMatch1 p c && segMatch rest cs' | [] => false
+  | [], cs => cs.isEmpty
+  | .dstar :: rest, cs =>
+    (match rest with
+     | [] => !cs.isEmpty
+     | _ :: _ => dstarSkip (segMatch rest) cs)
+  | .items p :: rest, cs =>
+    (match cs with
+     | c :: cs' => compMatch1 p c && segMatch rest cs'
+     | [] => false)
+
+/-- No two `**` next to each other (`a/**/**/b` is outside the fragment). -/
+def noAdjacentDstar : List Seg → Bool
+  | .dstar :: .dstar :: _ => false
+  | _ :: rest => noAdjacentDstar rest
+  | [] => true
 
 /-- Parse a clean pattern into segments; `none` outside the fragment (`**` glued to other characters, empty / `.` /
     `..` segments, characters outside the fragment). -/
 def parseSegs (pattern : Name) : Option (List Seg) :=
-  (splitOnSlash pattern).mapM fun s =>
-    if s == ['*', '*'] then some .dstar
+  match (splitOnSlash pattern).mapM fun s =>
+    if s == ['*', '*'] then some Seg.dstar
     else if s.isEmpty || s == ['.'] || s == ['.', '.'] || containsSub ['*', '*'] s || s.contains '/' then none
-    else (parseGlob (s.length + 1) s).map .items
+    else (parseGlob (s.length + 1) s).map Seg.items with
+  | some segs => if noAdjacentDstar segs then some segs else none
+  | none => none
+
+/-! ### the matchers on *parsed* patterns (what the string-level pipeline yields on the fragment) -/
+
+/-- One pattern item as the regexp `toRegexString` makes of it (`builtin = false`), resp. as `filepath.Match` treats
+    it (`builtin = true`: `?` is one non-'/' character). -/
+def itemRe (builtin : Bool) : GItem → Re
+  | .lit c => .chr c
+  | .star => .starCls true [('/', '/')]
+  | .any => if builtin then .cls true [('/', '/')] else .dot
+  | .cls neg rs => .cls neg rs
+
+def itemsRe (builtin : Bool) : List GItem → Re
+  | [] => .eps
+  | i :: p => .cat (itemRe builtin i) (itemsRe builtin p)
+
+/-- `toRegexString` on a parsed pattern: `a/**/b` ↦ `a/(.*/)?b`, a leading `**/x` ↦ `.*/x` (no preceding '/' for the
+    last `ReplaceAll` to catch), a trailing `a/**` ↦ `a/.*`. -/
+def toReSegs (builtin : Bool) : Bool → List Seg → Re
+  | _, [] => .eps
+  | _, .items p :: rest =>
+    (match rest with
+     | [] => itemsRe builtin p
+     | _ :: _ => .cat (itemsRe builtin p) (.cat (.chr '/') (toReSegs builtin false rest)))
+  | atStart, .dstar :: rest =>
+    (match rest with
+     | [] => .dotStar
+     | _ :: _ =>
+       if atStart then .cat .dotStar (.cat (.chr '/') (toReSegs builtin false rest))
+       else .cat (.opt (.cat .dotStar (.chr '/'))) (toReSegs builtin false rest))
+
+/-- A literal path component as a pattern segment. -/
+def litSeg (c : Name) : Seg := .items (c.map .lit)
+
+/-- Characters `toRegexString` passes to `regexp.Compile` unescaped although they are regexp syntax. -/
+def reSafe (c : Char) : Bool := !(c = '(' || c = ')' || c = '|')
+
+/-- Items whose reading by the matcher is the documented one and which cannot match '/': literals other than '/'
+    (and, for the regexp, other than the unescaped `(` `)` `|`), `*`, `?` only under `filepath.Match`, and
+    non-negated classes without '/'. -/
+def okItem (builtin : Bool) : GItem → Bool
+  | .lit c => c != '/' && (builtin || reSafe c)
+  | .star => true
+  | .any => builtin
+  | .cls neg rs => !neg && !inRanges rs '/'
+
+def okSegs (builtin : Bool) : List Seg → Bool
+  | [] => true
+  | .dstar :: rest => !builtin && okSegs builtin rest
+  | .items p :: rest => p.all (okItem builtin) && okSegs builtin rest
+
+/-- The pattern `filepath.Match` sees for parsed segments: items joined by a literal '/'. -/
+def flattenSegs : List Seg → List GItem
+  | [] => []
+  | .dstar :: rest => .star :: .star :: (match rest with | [] => [] | _ :: _ => .lit '/' :: flattenSegs rest)
+  | .items p :: rest => p ++ (match rest with | [] => [] | _ :: _ => .lit '/' :: flattenSegs rest)
+
+/-- The package path contains none of the characters the regexp translation leaves unescaped. -/
+def safePath (builtin : Bool) (root : List Name) : Bool := root.all fun c => c.all fun x => builtin || reSafe x
+
+def hasDstar (segs : List Seg) : Bool := segs.any fun s => match s with | .dstar => true | _ => false
+
+/-- `patternToMatcher(root, pattern).Match(name)` on a parsed pattern: the package path is prepended as literal
+    segments (`filepath.Join`), `**` selects the regexp translation. -/
+def structMatch (root : List Name) (segs : List Seg) (name : Name) : Bool :=
+  let full := root.map litSeg ++ segs
+  if hasDstar segs then rmatch (toReSegs false true full) (·.isEmpty) name
+  else gmatch (flattenSegs full) name
 
 def hiddenComp (c : Name) : Bool :=
   (match c with | '.' :: _ => true | _ => false) ||
@@ -423,6 +523,12 @@ def specFo (cfg : Cfg) (q : Query) (top : Bool) (rel : List Name) : Forest → L
        | .dir cs => if hasBuild cfg cs then [] else specT cfg q top (rel ++ [n]) (.dir cs)) ++
     specFo cfg q top rel rest
 end
+
+/-- Parse the textual query; `none` when a pattern is outside the fragment the specification is defined on. -/
+def mkQuery (includes excludes : List Name) (hidden symlinks : Bool) : Option Query :=
+  match includes.mapM parseSegs, excludes.mapM (fun e => (parseSegs e).map fun s => (e, s)) with
+  | some i, some e => some { includes := i, excludes := e, hidden := hidden, symlinks := symlinks }
+  | _, _ => none
 
 /-- What `glob(include, exclude, hidden)` must return in the package at `root` (paths relative to it). -/
 def specGlob (cfg : Cfg) (q : Query) (root : List Name) (t : Tree) : List Name :=
